@@ -56,6 +56,7 @@ enum Kind {
     RangeIdxCall { method: String, base: Rng, base_txt: String },
     BorrowMutIdx { recv: Rng },
     Closure { body: Rng },
+    Jump { what: char },
     Attr,
     Vis,
     Ident { name: String },
@@ -120,6 +121,22 @@ impl<'ast, 's> Visit<'ast> for Collect<'s> {
     fn visit_expr_closure(&mut self, n: &'ast syn::ExprClosure) {
         self.push(Kind::Closure { body: rng(&*n.body) }, rng(n));
         visit::visit_expr_closure(self, n);
+    }
+    fn visit_expr_return(&mut self, n: &'ast syn::ExprReturn) {
+        self.push(Kind::Jump { what: 'R' }, rng(n));
+        visit::visit_expr_return(self, n);
+    }
+    fn visit_expr_break(&mut self, n: &'ast syn::ExprBreak) {
+        self.push(Kind::Jump { what: 'B' }, rng(n));
+        visit::visit_expr_break(self, n);
+    }
+    fn visit_expr_continue(&mut self, n: &'ast syn::ExprContinue) {
+        self.push(Kind::Jump { what: 'K' }, rng(n));
+        visit::visit_expr_continue(self, n);
+    }
+    fn visit_expr_try(&mut self, n: &'ast syn::ExprTry) {
+        self.push(Kind::Jump { what: 'T' }, rng(n));
+        visit::visit_expr_try(self, n);
     }
     fn visit_block(&mut self, n: &'ast syn::Block) {
         self.push(Kind::Block, rng(n));
@@ -970,6 +987,14 @@ fn main() {
                 let what = format!("{}:{} item `{}`", unit_path, spec.line, spec.selector.join(" "));
                 let loc = locate(src, &spec.selector);
                 let (emitted, edits_log, splices, copied) = emit_item(src, &loc, &spec, &subst, &vecplaces, &what);
+                let shape_region = match &spec.frag {
+                    Some((a, b, _, _)) => Rng { lo: resolve_anchor(&loc, a, &what), hi: resolve_anchor(&loc, b, &what) },
+                    None => match loc.block {
+                        Some(b) => rng(b),
+                        None => loc.whole,
+                    },
+                };
+                let shape = shape_of(&loc.nodes, shape_region);
                 let start = body.line;
                 if let Some(a) = &spec.attr {
                     body.push(a.trim_end());
@@ -1006,6 +1031,7 @@ fn main() {
                     "external_body": spec.external_body || spec.attr.as_ref().map(|a| a.contains("external_body")).unwrap_or(false),
                     "sigonly": spec.sigonly,
                     "fragment": spec.frag.is_some(),
+                    "shape": shape,
                     "edits": edits_log,
                     "splices": spl,
                 }));
@@ -1116,6 +1142,35 @@ fn vac_fn(src: &Src, loc: &Located, spec: &ItemSpec, subst: &[(String, String)])
         "// vacuity guard (must FAIL): the precondition of `{}` is satisfiable\nproof fn vac_{}({})\n    requires {}\n{{ assert(false); }}",
         qname(spec), fname, params.join(", "), out
     ))
+}
+
+/// control-flow shape of a region: loops / ifs / matches / closures / jumps in source order with their nesting depth.
+/// The proof text of a unit is written for one shape; the driver treats failures in a function whose shape changed
+/// as "restructured" (undecided unless a shape-independent check finds a concrete failing input).
+fn shape_of(nodes: &[Node], region: Rng) -> String {
+    let ctl: Vec<&Node> = nodes
+        .iter()
+        .filter(|n| region.contains(&n.r))
+        .filter(|n| matches!(n.kind, Kind::While { .. } | Kind::For { .. } | Kind::Loop { .. } | Kind::If { .. } | Kind::Match { .. } | Kind::Closure { .. } | Kind::Jump { .. }))
+        .collect();
+    let mut v: Vec<&Node> = ctl.clone();
+    v.sort_by(|a, b| a.r.lo.cmp(&b.r.lo).then(b.r.hi.cmp(&a.r.hi)));
+    let mut out = String::new();
+    for n in v {
+        let depth = ctl.iter().filter(|m| m.r.contains(&n.r) && m.r != n.r && !matches!(m.kind, Kind::Jump { .. })).count();
+        let tok = match &n.kind {
+            Kind::While { .. } => "W".to_string(),
+            Kind::For { .. } => "F".to_string(),
+            Kind::Loop { .. } => "L".to_string(),
+            Kind::If { els, .. } => if els.is_some() { "Ie".to_string() } else { "I".to_string() },
+            Kind::Match { arms } => format!("M{}", arms.len()),
+            Kind::Closure { .. } => "C".to_string(),
+            Kind::Jump { what } => what.to_string(),
+            _ => String::new(),
+        };
+        let _ = write!(out, "{depth}{tok} ");
+    }
+    out.trim_end().to_string()
 }
 
 fn qname(spec: &ItemSpec) -> String {
